@@ -47,7 +47,8 @@ def judge(h, obs):
                 bad.append("step %d: Supported() changed process state" % o["step"])
             blocked = 0 in e["state"][e["t"]]["chain"]
             if o["result"] != ("false" if blocked else "true"):
-                bad.append("step %d: Supported() = %s (%s)" % (o["step"], o["result"], "seccomp(2) is answered with ENOSYS on this thread" if blocked else "on a kernel with seccomp"))
+                # the statement only demands that probing changes nothing; the answer itself is a drift diagnostic
+                drift.append("step %d: Supported() = %s (%s)" % (o["step"], o["result"], "seccomp(2) is answered with ENOSYS on this thread" if blocked else "on a kernel with seccomp"))
         # model/real projection (drift diagnostic and kernel-model validation)
         for t, exp in e["state"].items():
             if t == "pool":
